@@ -92,6 +92,10 @@ Record fixitem := mkFI {
   fi_larger : bool;          (* on disk larger than recorded *)
   fi_state : fixstate;
   fi_partial : bool;         (* FUnrecoverable but some stripes of it were recovered and written *)
+  fi_unsynced : bool;        (* exists, but size or time-stamp differ from the record (FILE_IS_UNSYNCED, check.c:1119-1127);
+                                a missing file is unsynced too: fix creates it empty before looking *)
+  fi_finished : bool;        (* its last block is processed: inside the -S/-B range and reached before any bail
+                                (FILE_IS_FINISHED, check.c:644-647) *)
   fi_anc : list N            (* ancestor directories that do not exist (mkancestor) *)
 }.
 
@@ -243,24 +247,40 @@ Definition scrub_body (o : opts) (p : pre) : list effect * exitclass :=
 
 (* ---------------------------------------------------------------------------------------------------- fix *)
 
-Definition item_effects (it : fixitem) : list effect * list report :=
+(* a non-empty recorded file.  `so` = opt.syncedonly (-e / -b): fixes are applied only to files not modified since the last sync.
+   check.c:1063-1084 handle_create (creates a missing file, or renames back a .unrecoverable copy); 1130-1153 size;
+   1339-1382 handle_write guarded by EXCLUDED || (syncedonly && UNSYNCED); file_post 599-794 (same guard, then FINISHED,
+   rename of DAMAGED files, time of FIXED files); 1837-1885: a file created from scratch in this run that did not reach
+   FILE_IS_FINISHED is removed again *)
+Definition file_effects (so : bool) (it : fixitem) : list effect * list report :=
   let d := fi_disk it in let pth := fi_path it in
-  if negb (fi_selected it) then ([], []) else
   let anc := map (fun a => WData d a KMkdir) (fi_anc it) in
-  match fi_kind it with
-  | OFile =>
-      (* check.c:1063-1084 handle_create; 1130-1153 size; 1339-1382 handle_write; file_post 644-751 *)
-      let opening := if fi_missing it
-                     then anc ++ [WData d pth (if fi_unrec_copy it then KRename else KCreate)]
-                     else [] in
-      let trunc := if fi_larger it then ([WData d pth KTruncate], [RFixed d pth]) else ([], []) in
+  let opening := if fi_missing it
+                 then anc ++ [WData d pth (if fi_unrec_copy it then KRename else KCreate)]
+                 else [] in
+  let cleanup := if fi_missing it && negb (fi_unrec_copy it) then [WData d pth KUnlink] else [] in
+  if so && (fi_missing it || fi_unsynced it) then (opening ++ cleanup, [])
+  else
+    let trunc := if fi_larger it then ([WData d pth KTruncate], [RFixed d pth]) else ([], []) in
+    if negb (fi_finished it) then
+      let written := match fi_state it with FGood => false | FRecoverable => true | FUnrecoverable => fi_partial it end in
+      (opening ++ fst trunc ++ (if written then [WData d pth KWrite] else []) ++ cleanup,
+       snd trunc ++ (if written then [RFixed d pth] else []))
+    else
       match fi_state it with
       | FGood => (opening ++ fst trunc, snd trunc)
       | FRecoverable => (opening ++ fst trunc ++ [WData d pth KWrite; WData d pth KUtime],
                          snd trunc ++ [RFixed d pth; RRecovered d pth])
       | FUnrecoverable => (opening ++ fst trunc ++ (if fi_partial it then [WData d pth KWrite] else []) ++ [WData d pth KRename],
                            snd trunc ++ (if fi_partial it then [RFixed d pth] else []) ++ [RUnrecoverable d pth])
-      end
+      end.
+
+Definition item_effects (so : bool) (it : fixitem) : list effect * list report :=
+  let d := fi_disk it in let pth := fi_path it in
+  if negb (fi_selected it) then ([], []) else
+  let anc := map (fun a => WData d a KMkdir) (fi_anc it) in
+  match fi_kind it with
+  | OFile => file_effects so it
   | OEmptyFile =>
       match fi_state it with
       | FGood => ([], [])
@@ -287,8 +307,8 @@ Definition item_effects (it : fixitem) : list effect * list report :=
       end
   end.
 
-Definition items_effects (l : list fixitem) : list effect * list report :=
-  fold_right (fun it acc => let r := item_effects it in (fst r ++ fst acc, snd r ++ snd acc)) ([], []) l.
+Definition items_effects (so : bool) (l : list fixitem) : list effect * list report :=
+  fold_right (fun it acc => let r := item_effects so it in (fst r ++ fst acc, snd r ++ snd acc)) ([], []) l.
 
 Definition fix_parity (o : opts) (p : pre) : list effect * list report :=
   fold_right (fun ls acc =>
@@ -309,7 +329,7 @@ Definition check_body (fixing : bool) (o : opts) (p : pre) : list effect * list 
     let rsz := resize_effects (p_fix_resize p) (levels p) (par_excluded o) in
     (* check.c:2058: nothing at all is examined when the selected range is empty *)
     let active := N.ltb (o_blockstart o) (p_blockmax p) in
-    let it := if active then items_effects (p_fix_items p) else ([], []) in
+    let it := if active then items_effects (o_error o) (p_fix_items p) else ([], []) in
     let pf := if active then fix_parity o p else ([], []) in
     (rsz ++ fst it ++ fst pf, snd it ++ snd pf,
      (* unrecoverable_error <> 0: a selected object could not be rebuilt, or some other stripe could not be verified *)
